@@ -36,10 +36,13 @@ TRUSTED = [
     'the parameter is discharged with the C05/C17 path model (Model/MatchReal.lean, modelled not verified, tied by the streams '
     'match-real and match-xspec): FlagFree for every path, Lawful up to simulation for paths without position tests; '
     'positional predicates are covered by the model and the correspondence, by no tree-rewrite theorem',
-    'the XPath reading of a match path is proved for GenericStrategy (C05 pattern_matches_eq_xp) and SingleStepStrategy (C17 '
-    'single_eq_generic); for SimplePathStrategy in pattern mode it is tied by match-xspec and the rref oracle only',
-    'the location form of the specification (xpForest/patternSel, driver verb xspec) is tied to the code by correspondence, '
-    'not proved equal to the marks form (mkKids/patternMarks) in Lean',
+    'the XPath reading of a match path is proved for the three strategies and unions (marks_are_xpath_matches_every_strategy: C05 '
+    'pattern_matches_eq_xp, pattern_matches_eq_xp_fragments, C17 single_eq_generic in pattern mode) under the static criterion PatternXp '
+    '(no position tests, no attribute axis, no leading `.`) on clean element trees (C05 NodeFor); outside it: streams match-real / match-xspec, oracle rref',
+    'the location form of the specification (xpForest/patternSel, driver verb xspec) is proved equal to the marks form (mkKids/patternMarks: '
+    'xpath_spec_eq_marks_spec) under the same criterion, and tied to the code by correspondence',
+    'once="true" in the tree specification: onceList (replace the first match in document order), proved equal to the stage for lawful matchers '
+    '(once_replaces_first_match) and driven by the verb `tree` against the code (stream match-spec)',
     'the forest parser of the driver verb `tree` (specification vs code) is unverified plumbing',
     'the push-style (automaton) reading of the generator pipeline for buffer="false" is validated by correspondence, not proved equal to Python generator semantics',
 ]
@@ -54,7 +57,8 @@ ASSUMPTIONS = [
     'bodies are literal markup plus select() calls; buffer="false" only with at most one select() (documented requirement)',
     'real-matcher class: documents with unprefixed names and attributes n, m; match paths without variables; the reference '
     'oracles (rref, match-xspec) use the structured sub-grammar (names/*, child, descendant::, //, [@a], [@a="v"], [not(@a)], '
-    'unions), where genshi\'s predicate values are XPath\'s (outside it the recorded C05 findings apply)',
+    'unions, a final attribute step), where genshi\'s predicate values are XPath\'s (outside it the recorded C05 findings apply); '
+    'the rref oracle skips unions with an attribute-final operand (known finding C12-union-attribute-operand), the correspondence keeps them',
     'repeat oracle: every rendering of one template object must equal the first one (whatever the absolute semantics of a '
     'positional first step, finding C17-pattern-first-step-position)',
 ]
@@ -77,6 +81,28 @@ def _variant(kids, fn, like=None):
 def documented_use(case):
     """buffer="false" only on bodies with at most one select() (the documentation requires buffering otherwise)"""
     return all(t.get('buffer', True) or G.body_nsel(t['body']) <= 1 for t in G.case_templates(case))
+
+
+def has_late_declaration(kids):
+    """a match declaration among the children of the root after some content"""
+    seen_content = False
+    for it in kids:
+        if isinstance(it, dict) and 'match' in it:
+            if seen_content:
+                return True
+        else:
+            seen_content = True
+    return False
+
+
+def _without_once(kids):
+    """the same document with every once="true" switched off (to count how often such a template would fire)"""
+    import copy
+    k = copy.deepcopy(kids)
+    for t in G.case_templates({'kids': k}):
+        if t.get('once'):
+            G.set_hints(t, once=False)
+    return k
 
 
 def positional(case):
@@ -180,7 +206,8 @@ def _ok_spath(sp):
     try:
         return (isinstance(sp, list) and len(sp) >= 1 and all(
             isinstance(st, list) and len(st) >= 1 and all(
-                isinstance(x, list) and len(x) == 3 and x[0] in ('child', 'desc', 'dos') and isinstance(x[1], str)
+                isinstance(x, list) and len(x) == 3 and isinstance(x[1], str)
+                and (x[0] in ('child', 'desc', 'dos') or (x[0] == 'attr' and x is st[-1] and len(st) > 1 and x[2] is None))
                 and (x[1] == '*' or _NAME.match(x[1]))
                 and (x[2] is None or (isinstance(x[2], list) and x[2][0] in ('has', 'eq', 'not') and x[2][1] in R.ANAMES
                                       and len(x[2]) == (3 if x[2][0] == 'eq' else 2)
@@ -452,6 +479,14 @@ def compare(cases, res, stream, verb='run'):
         hits = m.pop() if m[0] == 'ok' else None
         if verb == 'spec':
             hits = None
+            # `once` templates are in the tree specification too (onceList: the first match in document order)
+            once_ts = [k for k, t in enumerate(G.case_templates(cases[i])) if t.get('once')]
+            if once_ts:
+                res.count('spec:once-template')
+                if not positional(cases[i]):
+                    _, fired0 = G.reference(dict(cases[i], kids=_without_once(cases[i]['kids'])))
+                    if any(fired0.get(k, 0) > 1 for k in once_ts):
+                        res.count('spec:once-template:several-matches')
         if hits is not None and not positional(cases[i]) and documented_use(cases[i]):
             # the model's ghost hit counters against the independent reference's firing counts
             ref, fired = G.reference(cases[i])
@@ -466,6 +501,11 @@ def compare(cases, res, stream, verb='run'):
                                       'model': repr(m)[:600], 'real': repr(real)[:600]})
             if 'auto_reload' in cases[i]:
                 res.disagreements[-1]['case']['auto_reload'] = cases[i]['auto_reload']
+
+
+def union_with_attr_operand(case):
+    """some match path is a union one of whose location paths ends in an attribute step"""
+    return any(t.get('spath') and len(t['spath']) > 1 and any(st[-1][0] == 'attr' for st in t['spath']) for t in case['tmpls'])
 
 
 def compare_real(cases, res):
@@ -507,8 +547,15 @@ def compare_real(cases, res):
                 res.count('model:%s:unmodelled' % stream)
                 continue
             res.streams[stream] = res.streams.get(stream, 0) + 1
+            if stream == 'match-xspec' and any(t['once'] for t in c['tmpls']):
+                res.count('xspec:once-template')      # xpOnceForest: the first XPath match in document order
             if m != real:
                 res.disagreements.append({'stream': stream, 'case': case, 'model': repr(m)[:600], 'real': repr(real)[:600]})
+        if union_with_attr_operand(c):
+            # known finding C12-union-attribute-operand (the union dispatcher reports one operand per event; the same
+            # root as C05-union-attribute-and-owner): correspondence only, the oracle stays outside the defect class
+            res.count('rref:skipped:union-with-attribute-operand')
+            continue
         ref, fired = R.reference(c)
         if ref[0] == 'ok':
             res.count('oracle:rref')
@@ -551,6 +598,12 @@ def shard(arg):
             if any(G.first_step_positional(t['match']) for t in ts):
                 res.count('repeat:first-step-positional-multistep')
         res.count('templates:%d' % len(ts))
+        if has_late_declaration(case['kids']):
+            # a py:match after some content: the subject of late_registration_applies_from_there_on,
+            # lazy_eq_eager_late and (kind hints) buffer_hint_irrelevant_late
+            res.count('late-declaration:' + case['kind'])
+            if case['kind'] == 'hints' and any(0 <= i < len(ts) for i in case.get('buffer', [])):
+                res.count('late-declaration:hints:some-template-unbuffered')
         txt = json.dumps(case['kids'])
         for tag, name in (('"inc"', 'include'), ('"for"', 'py:for'), ('"frag"', 'data-stream')):
             if tag in txt:
